@@ -65,6 +65,8 @@ func genWorkload(r *rand.Rand, ntasks int) *workload {
 			kind := []string{"create", "match", "mismatch", "update", "update", "create"}[r.IntN(6)]
 			id := vkit.SlotID(t.Test, k)
 			oldIn, oldStored := valFor(api, id+" old")
+			// every variant of a slot's value has the same length: a rewrite then leaves the
+			// file size unchanged, which is what size/mtime based "did anything change" shortcuts rely on
 			_ = oldIn
 			c := wCall{Kind: kind, API: api}
 			switch kind {
@@ -74,7 +76,7 @@ func genWorkload(r *rand.Rand, ntasks int) *workload {
 				c.Val = oldIn
 				w.Seed[id] = oldStored
 			default:
-				c.Val, _ = valFor(api, id+" changed")
+				c.Val, _ = valFor(api, id+[]string{" chg", " chg", " changed to something longer"}[r.IntN(3)])
 				w.Seed[id] = oldStored
 			}
 			if _, ok := w.Seed[id]; ok {
